@@ -12,10 +12,11 @@ Theorem tables_empty_after_any_outcome : forall um t f,
 Proof. exact tables_empty_lemma. Qed.
 Print Assumptions tables_empty_after_any_outcome.
 
-(* Component._metadata_stack of every instance and the render_context stack of the caller (and of every
-   snapshot) are as before: exactly, not only in depth, from any state with empty tables. *)
+(* Component._metadata_stack of every instance, the render_context stack of the caller (and of every snapshot) and
+   the Context.dicts layers the library pushes for fill discovery are as before: exactly, not only in depth. *)
 Theorem stacks_restored : forall um t f s0, clean s0 ->
-  meta (snd (run cfg_fixed um t f s0)) = meta s0 /\ rctx (snd (run cfg_fixed um t f s0)) = rctx s0.
+  meta (snd (run cfg_fixed um t f s0)) = meta s0 /\ rctx (snd (run cfg_fixed um t f s0)) = rctx s0 /\
+  cdicts (snd (run cfg_fixed um t f s0)) = cdicts s0.
 Proof. exact stacks_restored_lemma. Qed.
 Print Assumptions stacks_restored.
 
